@@ -269,13 +269,16 @@ async def _inj_async(*, r: KT = resource("made")):
 
 
 def kcomp_params(tier):
-    return [P("first", 0, 5), P("second", 0, 5), P("node", 0, 1), P("phase", 0, 1), P("fasync", 0, 1)]
+    return [P("first", 0, 5), P("second", 0, 5), P("node", 0, 1), P("phase", 0, 1), P("fasync", 0, 1), P("late", 0, 1)]
 
 
 @guard
 def kcomp_fn(a, tier):
     first, second = pick(a["first"], 6), pick(a["second"], 6)
     node, phase, fasync = pick(a["node"], 2), pick(a["phase"], 2), pick(a["fasync"], 2)
+    late = pick(a["late"], 2) if node == 1 else 0  # the factory is published by a SIBLING while the component already waits for it
+    if late:
+        first = 3 if first % 2 else 5  # the first lookup must be a waiting (non-optional, async) one
     env = Env()
     made = []
     got = {}
@@ -315,17 +318,21 @@ def kcomp_fn(a, tier):
     steps = [("call", probe)]
     target = NodeSpec(node, -1 if node == 0 else 0, steps if phase == 0 else [], steps if phase == 1 else [])
     nodes = [target] if node == 0 else [NodeSpec(0, -1, [], []), target]
+    if late:
+        nodes.append(NodeSpec(2, 0, [("cp",), ("cp",), ("fac", "latefac", afactory if fasync else sfactory, "made", [KT])], []))
     classes = build_classes(env, nodes)
 
     async def main():
         async with Context() as ctx:
-            ctx.add_resource_factory(afactory if fasync else sfactory, "made", types=[KT])
+            if not late:
+                ctx.add_resource_factory(afactory if fasync else sfactory, "made", types=[KT])
             await start_component(classes[0], {}, timeout=100)
             got["after"] = await ctx.get_resource(KT, "made")
             got["after_nowait"] = ctx.get_resource_nowait(KT, "made")
 
     _, exc, _k = run(main)
-    summary = {"factory": "async" if fasync else "sync", "registered": "in the application context before start_component",
+    summary = {"factory": "async" if fasync else "sync",
+               "registered": "by a sibling component while the component is already waiting" if late else "in the application context before start_component",
                "lookups_inside": f"{['root', 'child'][node]}.{['prepare', 'start'][phase]}()", "first": COMP_APIS[first], "second": COMP_APIS[second]}
     if exc is not None:
         return FAIL(f"kcomp:raised:{type(exc).__name__}", repr(exc), summary)
